@@ -73,7 +73,7 @@ ASSUME RenderShape
 -----------------------------------------------------------------------------
 (* Canonical: programs *)
 I(n) == EInt(n)
-Nm(s) == EVar(s)
+Nm(sx) == EVar(sx)
 A == Nm(<<97>>)
 Bv == Nm(<<98>>)
 Cv == Nm(<<99>>)
@@ -117,6 +117,24 @@ Singles == [
                    SPrint(Nm(N_print)), SPrint(ETProp(I(1), N_type)), SPrint(ETProp(Str(<<>>), N_len)),
                    SPrint(EList(<<Nm(<<102>>)>>))>>,
   emptyconts |-> <<SPrint(EList(<<>>)), SPrint(EObj(<<>>)), SPrint(EList(<<EList(<<>>), EObj(<<>>)>>))>>,
+  longlist   |-> <<SPrint(ERange(I(0), I(40))), SPrint(EList(<<ERange(I(0), I(34)), Str(<<120>>)>>))>>,
+  longfail   |-> <<SDecl(A, EBin("+", ERange(I(0), I(39)), EList(<<I(0)>>))), SPrint(I(1)),
+                   SAssign(EIndex(A, I(39)), A), SPrint(A)>>,
+  longfail2  |-> <<SDecl(A, EBin("+", ERange(I(0), I(35)), EList(<<EIndex(Str(<<195, 169>>), I(0))>>))), SPrint(I(1)), SPrint(A)>>,
+  sharedempty |-> <<SDecl(Cv, EList(<<>>)), SPrint(EList(<<Cv, Cv>>)), SDecl(Bv, EObj(<<>>)),
+                    SPrint(EList(<<Bv, EObj(<<Pair(Str(KA), Bv)>>), Bv>>)), SPrint(EObj(<<Pair(Str(KA), Cv), Pair(Str(KB), Cv)>>))>>,
+  \* several violations at once: the first one in source order is the one reported, whatever the hash seed
+  multimissing |-> <<SDecl(EObj(<<Short(Nm(<<112, 111>>)), Short(Nm(<<117, 115>>)), Short(Nm(<<104, 111>>)), Short(Nm(<<100, 98>>)),
+                                  Short(Nm(<<116, 108>>)), Short(Nm(<<122, 122>>))>>), EObj(<<Pair(Str(KA), I(1))>>))>>,
+  multidupparam |-> <<SFn(<<102>>, <<Nm(<<97>>), Nm(<<98>>), Nm(<<99>>), Nm(<<100>>), Nm(<<100>>), Nm(<<99>>), Nm(<<98>>), Nm(<<97>>)>>, FALSE, <<>>)>>,
+  multidupbind |-> <<SDecl(EPat(<<Nm(<<97>>), Nm(<<98>>), Nm(<<99>>), Nm(<<99>>), Nm(<<98>>), Nm(<<97>>)>>),
+                           EList(<<I(1), I(2), I(3), I(4), I(5), I(6)>>))>>,
+  multiundef  |-> <<SPrint(EList(<<Nm(<<117, 49>>), Nm(<<117, 50>>), Nm(<<117, 51>>)>>))>>,
+  multishort  |-> <<SPrint(EObj(<<Short(Nm(<<117, 49>>)), Short(Nm(<<117, 50>>)), Short(Nm(<<117, 51>>))>>))>>,
+  multirest   |-> <<SDecl(EObj(<<Short(Nm(<<97>>)), PCollect(Nm(<<114>>))>>),
+                          EObj(<<Pair(Str(<<122>>), I(1)), Pair(Str(<<121>>), I(2)), Pair(Str(<<120>>), I(3)), Pair(Str(KA), I(0)),
+                                 Pair(Str(<<119>>), I(4)), Pair(Str(<<118>>), I(5))>>)),
+                    SPrint(Nm(<<114>>)), SFor(Cv, Nm(<<114>>), <<SPrint(Cv)>>)>>,
   keys       |-> <<SPrint(EObj(<<Pair(Str(<<98>>), I(1)), Pair(Str(<<66>>), I(2)), Pair(Str(<<>>), I(3)),
                                  Pair(Str(<<97, 32, 98>>), I(4)), Pair(Str(<<195, 169>>), I(5)), Pair(Str(<<97>>), I(6))>>))>>
 ]
